@@ -866,12 +866,19 @@ func (dht *FullRT) getValues(ctx context.Context, key string) (<-chan RecvdVal, 
 	logger.Debugw("finding value", "key", internal.LoggableRecordKeyString(key))
 
 	if rec, err := dht.getLocal(ctx, key); rec != nil && err == nil {
-		select {
-		case valCh <- RecvdVal{
-			Val:  rec.GetValue(),
-			From: dht.h.ID(),
-		}:
-		case <-ctx.Done():
+		// The stored record was valid when it was put, but validity can lapse
+		// (e.g. an expired IPNS record): check it again before handing it out,
+		// as the standard DHT does.
+		if err := dht.Validator.Validate(key, rec.GetValue()); err != nil {
+			logger.Debugw("local record verify failed", "key", internal.LoggableRecordKeyString(key), "error", err)
+		} else {
+			select {
+			case valCh <- RecvdVal{
+				Val:  rec.GetValue(),
+				From: dht.h.ID(),
+			}:
+			case <-ctx.Done():
+			}
 		}
 	}
 	peers, err := dht.GetClosestPeers(ctx, key)
